@@ -82,6 +82,33 @@ def postconditions(ctx, lc, case, parent, pseq, pcp, child, frozen, move, pdmax)
     return True
 
 
+def observable(obj):
+    """What the public API shows of a backend object (sequence, charge pattern, phosphosites, rendering)."""
+    return (obj.seq, cp_of(obj), repr(common.call(obj.get_phosphosites)), repr(common.call(obj.get_HTMLColorString))[:4000])
+
+
+def child_is_independent(ctx, case, parent, child, rng):
+    """'The object they were called on is never altered' also afterwards: annotating, clearing and recolouring the returned object
+    through its public methods must leave the parent as it was (and the other way round)."""
+    if child is parent:
+        return True
+    for a, b, who in ((child, parent, "parent"), (parent, child, "child")):
+        before = observable(b)
+        sty = [i + 1 for i, ch in enumerate(a.seq) if ch in "STY"]
+        common.call(a.setPhosPhoSites, rng.sample(sty, min(len(sty), 2)) if sty else [1])
+        pal = {r: rng.choice(["red", "blue", "green", "black"]) for r in common.AA}
+        common.call(a.set_HTMLColorResiduePalette, pal)
+        if observable(b) != before:
+            ctx.violation("parent-altered" if who == "parent" else "child-not-independent", dict(case, through="phosphosites / palette set on the %s afterwards" % ("child" if who == "parent" else "parent")),
+                          expected=before[:3], actual=observable(b)[:3])
+            return False
+        common.call(a.clear_phosphosites)
+        if observable(b) != before:
+            ctx.violation("parent-altered" if who == "parent" else "child-not-independent", dict(case, through="clear_phosphosites on the other object"), expected=before[:3], actual=observable(b)[:3])
+            return False
+    return True
+
+
 def replay_record(ctx, lc, rec, cached):
     pseq = "".join(rec["seq"])
     parent = lc.Sequence(pseq)
@@ -126,6 +153,10 @@ def replay_record(ctx, lc, rec, cached):
             return
         if not postconditions(ctx, lc, case, parent, pseq, pcp, child, frozen, rec["move"], pdmax):
             return
+        if ctx.evaluations % 7 == 0:
+            want_child = (child.seq, cp_of(child))
+            if not child_is_independent(ctx, case, parent, child, ctx.rng) or (child.seq, cp_of(child)) != want_child:
+                return
     elif parent.seq != pseq or cp_of(parent) != pcp:
         ctx.violation("parent-altered", case, expected=(pseq, pcp), actual=(parent.seq, cp_of(parent)))
         return
@@ -209,6 +240,9 @@ def chain_events(ctx, lc, tid, start, nmoves, seed):
             if ref_dmax[0] != "ok" or not common.close(child.dmax, __import__("fractions").Fraction(float(ref_dmax[1]))):
                 ctx.violation("carried-deltamax-wrong", {"move": move, "seq": pseq, "child": child.seq}, expected=ref_dmax, actual=child.dmax)
         ev.append(e)
+        if step % 3 == 0 and len(pseq) <= 300:
+            with rngshim.installed(lc, rngshim.Recorder(seed + 7, budget=100000)):
+                child_is_independent(ctx, {"move": move, "seq": pseq, "frozen": frozen, "child": child.seq}, obj, child, rng)
         obj = child
         rec.budget = max(4000, 8 * len(start))
     return {"tid": tid, "ev": ev}
